@@ -1506,7 +1506,17 @@ func (g *gen) randomOp(i int) []string {
 	case x < 8 && g.flavour[i] != "set":
 		return []string{g.rmwOp(i, g.key(), hx.Pick(g.rng, rmwBytes))}
 	case x < 34:
-		return []string{g.setOp(i, g.key(), g.val())}
+		k, v := g.key(), g.val()
+		ops := []string{g.setOp(i, k, v)}
+		if g.flavour[i] != "set" && (strings.HasPrefix(v, "dd") || strings.HasPrefix(v, "cc") || len(v) > 100) {
+			// a value that does not decode / decodes short / is long is read back at once
+			ops = append(ops, fmt.Sprintf("get %d %s", i, k))
+			if g.rng.Bool() {
+				ops = append(ops, fmt.Sprintf("stream %d 0", i))
+			}
+		}
+
+		return ops
 	case x < 50:
 		return []string{g.delOp(i, g.key())}
 	case x < 57:
